@@ -49,7 +49,7 @@ func C12() *runner.Property {
 			r := rng.New(uint64(seed) ^ 0xC12)
 			nd, ns := 40, 24
 			if tier == "thorough" {
-				nd, ns = 2000, 300
+				nd, ns = 12000, 2000
 			}
 			var cs []runner.Case
 			for i := 0; i < nd; i++ {
